@@ -48,6 +48,9 @@ def step (_ : Unit) (fields : List String) (impl : String) : Unit × Reply :=
       let known := if knownWsHost f then "F-20a" else "-"
       ((), { Reply.det model impl (model == want) (impl == want) with known := known })
     | _, _, _ => ((), .bad)
+  | ["dial", _] =>
+    -- connecting does not rewrite the configured address (the next attempt dials - and resolves - it again)
+    ((), .det "kept" impl true (impl == "kept"))
   | ["split", h] =>
     -- the model of net.SplitHostPort against the real one, on any string (correspondence only)
     match dec h with
